@@ -585,6 +585,11 @@ macro_rules! decl_either {
 					$name::$id(v) => $id::into_untyped(v)
 				),*}
 			}
+			fn into_lazy_untyped(value: Self) -> Thunk<Val> {
+				match value {$(
+					$name::$id(v) => $id::into_lazy_untyped(v)
+				),*}
+			}
 		}
 
 		impl<$($id),*> FromUntyped for $name<$($id),*>
